@@ -191,6 +191,54 @@ def c17_regen_from_generated_task(_):
         s.cleanup()
 
 
+def c17_names_task(fname):
+    """The generated file is not called Monorail.json (two or more dots in its name; a sibling generated
+    from the same source next to it): untouched -> every API succeeds; its own lockfile edited -> fails."""
+    s = sc.Scratch("c17names")
+    try:
+        ports = (s.port(), s.port())
+        src = cfg_value(3, "Monorail.src.json", ports)
+        r = sc.Repo(s, "r", src["targets"], commands={"pkg/t0000": {"build": "x"}}, ports=False)
+        os.unlink(r.path("Monorail.json"))
+        src_text = json.dumps(src, indent=2)
+        r.write("Monorail.src.json", src_text)
+        stem = fname[:-len(".json")]
+        sibling = stem.split(".")[0] + ".json"
+        for f_ in (sibling, fname):
+            g = r.mr("-f", r.path(f_), "config", "generate", stdin=src_text.encode())
+            if g.code != 0:
+                return {"judged": 0, "v": []}
+        f_arg = ["-f", r.path(fname)]
+        v = []
+        judged = 0
+        apis = [a for a in APIS if a[0] in ("config show", "target show -g", "checkpoint update", "analyze", "run", "result show")]
+        for name, argv in apis:
+            res = r.mr(*f_arg, *argv, env=r.trace_env())
+            judged += 1
+            if res.code != 0:
+                v.append(("untouched-api-fails", "[generated file %s] %s with untouched files: exit %s %s" % (fname, name, res.code, res.err[:200])))
+        lock = r.path(stem + ".lock")
+        if os.path.exists(lock):
+            lk = open(lock, "rb").read()
+            pos = lk.find(b'":"') + 3
+            open(lock, "wb").write(lk[:pos] + (b"0" if lk[pos:pos + 1] != b"0" else b"1") + lk[pos + 1:])
+            for name, argv in apis:
+                r.clear_traces()
+                res = r.mr(*f_arg, *argv, env=r.trace_env())
+                judged += 1
+                if res.code == 0:
+                    v.append(("tampered-api-succeeds", "[generated file %s] %s succeeded after a digit of the checksum in %s.lock was changed" % (fname, name, stem)))
+        else:
+            v.append(("untouched-api-fails", "[generated file %s] config generate wrote no %s.lock" % (fname, stem)))
+        return {"judged": judged, "v": [(sig, d, {"cli_c17_names": fname}) for sig, d in v], "size": 0}
+    except common.EngineError as e:
+        return {"engine_error": str(e)}
+    except Exception:
+        return {"engine_error": traceback.format_exc()[-1200:]}
+    finally:
+        s.cleanup()
+
+
 def c17_elsewhere_task(layout):
     """`config generate` and every later command are invoked from a directory other than the one that
     holds the generated file (`-f <abs>/Monorail.json`), with a relative `source.path`: the source that
@@ -679,14 +727,58 @@ def c08_tiny_task(_):
         s.cleanup()
 
 
+def c18_checkpoint_task(_):
+    """A checkpoint is recorded, one target changes, and only then the configuration file is re-serialised
+    (same value, new bytes, new modification time): analyze and run give what they gave before."""
+    s = sc.Scratch("c18cp")
+    try:
+        ts = [{"path": "a"}, {"path": "b", "uses": ["a"]}, {"path": "c"}]
+        r = sc.Repo(s, "r", ts, commands={t["path"]: {"build": "x"} for t in ts},
+                    files={".gitignore": "monorail-out\nMonorail.json\n"})
+        val = json.loads(open(r.path("Monorail.json")).read())
+        if r.mr("checkpoint", "update").code != 0:
+            raise common.EngineError("checkpoint update failed")
+        r.write("c/changed.txt", "x\n")
+
+        def observe():
+            a = r.mr("analyze", "--target-groups")
+            r.clear_traces()
+            rr = r.mr("run", "-c", "build", env=r.trace_env())
+            return (a.code, strip_ts(a.json()), rr.code, sorted(r.target_pair(t)[0] for t in r.traces()))
+        ref = observe()
+        v = []
+        judged = 1
+        sers = [("pretty", json.dumps(val, indent=2)), ("reverse-sorted-compact", json.dumps(deep_order(val, "reverse-sorted"), separators=(",", ":"))),
+                ("padded", json.dumps(val) + " " * 100000), ("same-bytes-new-mtime", None)]
+        for name, text in sers:
+            time.sleep(0.05)
+            if text is None:
+                os.utime(r.path("Monorail.json"), None)
+            else:
+                r.write("Monorail.json", text)
+            got = observe()
+            judged += 1
+            if got != ref:
+                v.append(("serialisation-changes-output", "a checkpoint exists and target c changed; after re-serialising the configuration as %s: analyze/run give %s, before %s" % (name, got[1:], ref[1:])))
+        return {"judged": judged, "v": [(sig, d, {"cli_c18_cp": 1}) for sig, d in v]}
+    except common.EngineError as e:
+        return {"engine_error": str(e)}
+    except Exception:
+        return {"engine_error": traceback.format_exc()[-1200:]}
+    finally:
+        s.cleanup()
+
+
 def run_slice(prop, tier):
     if prop == "C17":
         sizes = [3, 60, 400] if tier == "quick" else [3, 60, 160, 400, 1500]
         res = common.pmap(c17_task, sizes)
         res += common.pmap(c17_elsewhere_task, ["subdir", "outside"])
         res += common.pmap(c17_regen_from_generated_task, [0])
+        res += common.pmap(c17_names_task, ["Monorail.prod.json", "monorail.ci.v2.json", "cfg.json"])
     elif prop == "C18":
         res = common.pmap(c18_task, [3, 40] if tier == "quick" else [3, 40, 300])
+        res += common.pmap(c18_checkpoint_task, [0])
     elif prop == "C08":
         scripts = c08_scripts(tier)
         tasks = [(n, l, e, k) for (n, l, e) in scripts for k in ((1, 3) if tier == "quick" else (1, 2, 3, 5))]
@@ -728,12 +820,16 @@ def replay_case(prop, case):
         r = c08_show_filters_task(0)
     elif "cli_c08_repeat" in case:
         r = c08_repeat_task(tuple(case["cli_c08_repeat"]))
+    elif "cli_c17_names" in case:
+        r = c17_names_task(case["cli_c17_names"])
     elif "cli_c17_regen" in case:
         r = c17_regen_from_generated_task(0)
     elif "cli_c17_else" in case:
         r = c17_elsewhere_task(case["cli_c17_else"])
     elif "cli_c17" in case:
         r = c17_task(case["cli_c17"])
+    elif "cli_c18_cp" in case:
+        r = c18_checkpoint_task(0)
     elif "cli_c18" in case:
         r = c18_task(case["cli_c18"])
     else:
